@@ -143,7 +143,9 @@ def random_noise(rng, n):
 # hostile file names
 # ------------------------------------------------------------------------------------------------------------------
 NAME_PARTS = ["A", "Abc", "a", "_", "_x_", "0A", "A-B", "A B", " A", "é", "Ω", "uint8", "CON", "optional", "a" * 260, "", "A.B"]
-NUM_PARTS = ["0", "1", "255", "256", "-1", "+1", "1_0", " 1", "1 ", "１", "٣", "1e3", "1.5", "0x1", "", "x", "99999999999999999999", "007", "8191", "8192", "511", "512"]
+NUM_PARTS = ["0", "1", "255", "256", "-1", "+1", "1_0", " 1", "1 ", "１", "٣", "1e3", "1.5", "0x1", "", "x", "99999999999999999999", "007", "8191", "8192", "511", "512",
+             # characters that are digits for str.isdigit()/isnumeric() but not for int(), and other numeral look-alikes
+             "²", "1²", "³0", "₂", "①", "⑩", "Ⅷ", "½", "௧", "〇", "五", "𝟙", "1\u200b", "\u0661\u0662", "1\u0660"]
 
 
 def gen_file_name(rng):
